@@ -63,7 +63,8 @@ def run(ck):
 FIXED_SCENARIOS = {"leaked_child_survives_gc": "C13:open-child-ignored",
                    "closed_after_teardown_raised_baseexception": "C13:not-closed-after-teardown-raised",
                    "left_from_another_task_is_closed_all_the_same": "C13:not-closed-after-exit-failed",
-                   "lookup_made_inside_awaited_after_the_block_is_refused": "C13:guard:GetResource:closed"}
+                   "lookup_made_inside_awaited_after_the_block_is_refused": "C13:guard:GetResource:closed",
+                   "cancelled_exit_with_a_task_still_inside_is_reported": "C13:open-child-ignored"}
 
 
 def replay(ck, obj):
